@@ -71,7 +71,11 @@ def run_retry(spec) -> str:
                 r.ev(0, "dened", did, "ok")
                 return None
 
-            async def __aexit__(s, et, ev, tb):
+            def __aexit__(s, et, ev, tb):
+                r.ev(0, "dexcall", s.cur()[0])      # the call; the coroutine's first step is `dex`
+                return s._aexit(et, ev, tb)
+
+            async def _aexit(s, et, ev, tb):
                 did, _en, ex, _ys = s.cur()
                 r.ev(0, "dex", did, sp.out_name(ev) if et is not None else "None")
                 if ex == "raise":
@@ -173,8 +177,14 @@ def extra_obligations():
     return regen.check("dispexit", core.REPO, core.LEAN)
 
 
+# the known finding in the ROLLBACK path (thorough sweep, seed 11): a member of a cancelled scope is past its disposable's enter when the
+# yielded iterable raises; `_dispose` builds its gather, and the owner's task-group abort reaches the member in that same loop turn
+_ROLLBACK_STRUCK = ('{"prog":[["block","async",1,[],[[1,"ok","ok",[[2,1]]]],[["cancelself"],["spawn",1,"spawn",[["block","async",3,[],'
+                    '[[3,"ok","ok",[[-1,0]]]],[]]]],["await",2]]]],"sched":[]}')
+
+
 def corpus():
-    return list(itertools.islice(single_block_family(1), 0, None))
+    return list(itertools.islice(single_block_family(1), 0, None)) + [_ROLLBACK_STRUCK]
 
 
 def generate(rng, tier):
@@ -209,7 +219,7 @@ def blocks_of(case: str, out: str):
         if (len(e) > 3 and e[1] == "bodyend" and e[3] != "ok") or e[1] == "raise":
             disturb.append(idx)  # a failing body makes TaskGroup cancel the members
         k = e[1]
-        if k in ("den", "dened", "dex", "dexed"):
+        if k in ("den", "dened", "dex", "dexed", "dexcall"):
             b = disp_block[int(e[2])]
             r = res.setdefault(b, {"b": b, "task": int(e[0]), "ev": [], "order": [d[0] for d in blocks[b][4]]})
             r["ev"].append((idx, e))
@@ -262,7 +272,7 @@ def _from_check(evs, idx, t) -> bool:
 
 
 def facts(r):
-    f = {"den": {}, "dened": {}, "dex": {}, "dexed": {}, "enter": None, "bodyend": None, "left": None, "pos": {}}
+    f = {"den": {}, "dened": {}, "dex": {}, "dexed": {}, "dexcall": set(), "enter": None, "bodyend": None, "left": None, "pos": {}}
     for idx, e in r["ev"]:
         k = e[1]
         if k in ("den",):
@@ -275,6 +285,8 @@ def facts(r):
             f["pos"].setdefault(("dex", int(e[2])), idx)
         elif k == "dexed":
             f["dexed"][int(e[2])] = e[3]
+        elif k == "dexcall":
+            f["dexcall"].add(int(e[2]))
         elif k == "enter":
             f["enter"] = idx
         elif k == "bodyend":
@@ -303,7 +315,10 @@ def model_input(case: str, out: str) -> str:
             ds.append(en + ex)
         body = "exc" if (f["bodyend"] and f["bodyend"][1] != "ok") else "ok"
         intr = 1 if (f["enter"] is None and all(f["dened"][d] == "ok" for d in r["order"])) else 0
-        specs.append(",".join(ds) + f" {body} {intr} {1 if r['pending'] else 0}")
+        # the known finding's situation: read off the log by its cause (`pending_cancel_at_exit`) or by its exact mechanism (an
+        # exit that was asked for - `dexcall` - and never took its first step, the block left cancelled)
+        struck = f["left"][1] == "Cancelled" and any(d in f["dexcall"] and not f["dex"].get(d) for d in r["order"])
+        specs.append(",".join(ds) + f" {body} {intr} {1 if (r['pending'] or struck) else 0}")
     return ";".join(specs)
 
 
@@ -405,8 +420,12 @@ def monitor(case: str, out: str) -> list[str]:
             entered = f["dened"].get(d) == "ok"
             nx = len(f["dex"].get(d, []))
             if entered and nx == 0:
-                if r["pending"] and not f["dex"] and f["left"][1] == "Cancelled":  # normal exit or rollback
-                    fails.add("disposables.pending-cancel-skips-exit")  # known finding (exact history only)
+                if d in f["dexcall"] and f["left"][1] == "Cancelled":
+                    # known finding, recognised by its exact mechanism: the exit WAS asked for (`gather` built the list of
+                    # `__aexit__` coroutines – normal exit or rollback of a failed / interrupted enter) and asyncio cancelled the
+                    # wrapping task before the coroutine's first step (a cancellation pending when the exit starts, or reaching
+                    # the task in the loop turn in which it suspended in that `gather`); an exit that was never asked for is not this
+                    fails.add("disposables.pending-cancel-skips-exit")
                 else:
                     fails.add("disposables.entered-not-exited")
             if nx > 1:
